@@ -11,9 +11,9 @@ import Mathlib.Tactic.Tauto
 # C15 — line, plane, sphere and triangle primitives satisfy their geometric definitions
 
 `Gen.*` is regenerated from `ImathLine.h`, `ImathLineAlgo.h`, `ImathPlane.h`, `ImathSphere.h`, `ImathVecAlgo.h`
-on every run (T = Sym path extraction; `Vec::length()` is the opaque call `Gen.V?.length tmin sqrt`, whose body is
+on every run (T = Sym path extraction; `Vec::length()` is the opaque call `Gen.V?.length tmin tmax sqrt`, whose body is
 extracted separately).  All statements are over an arbitrary ordered field `α`; the Euclidean length enters
-through the hypothesis `LenSpec (Gen.V3.length tmin sqrt)` (`len v ^ 2 = v·v ∧ 0 ≤ len v`), the square root of
+through the hypothesis `LenSpec (Gen.V3.length tmin tmax sqrt)` (`len v ^ 2 = v·v ∧ 0 ≤ len v`), the square root of
 `Sphere3::intersectT` through `SqrtSpec sqrt`, and `sin/cos` of `rotatePoint` are arbitrary functions (the
 Pythagorean identity is a hypothesis where it is used).  `tmax` is `numeric_limits<T>::max()`: the overflow guards
 are part of the model and the theorems say exactly when they fire.  The vocabulary (`dot`, `cross`, `lineAt`,
@@ -41,10 +41,10 @@ variable {α : Type} [Field α] [LinearOrder α] [IsStrictOrderedRing α]
 
 /-- `Line3::set(p0,p1)` for distinct points: `pos = p0`, `dir` is a unit vector and `p1 − p0 = k·dir` with `k > 0`
 (so `p1` is on the line at the positive parameter `k = |p1 − p0|`) -/
-theorem Line3_set (tmin : α) (sqrt : α → α) (hlen : LenSpec (Gen.V3.length tmin sqrt)) (p0 p1 : V3 α) (hne : p0 ≠ p1) :
-    (Gen.Line3.set tmin sqrt p0 p1).pos = p0 ∧
-    dot (Gen.Line3.set tmin sqrt p0 p1).dir (Gen.Line3.set tmin sqrt p0 p1).dir = 1 ∧
-    ∃ k, 0 < k ∧ k ^ 2 = dist2 p1 p0 ∧ sub p1 p0 = smul k (Gen.Line3.set tmin sqrt p0 p1).dir := by
+theorem Line3_set (tmin tmax : α) (sqrt : α → α) (hlen : LenSpec (Gen.V3.length tmin tmax sqrt)) (p0 p1 : V3 α) (hne : p0 ≠ p1) :
+    (Gen.Line3.set tmin tmax sqrt p0 p1).pos = p0 ∧
+    dot (Gen.Line3.set tmin tmax sqrt p0 p1).dir (Gen.Line3.set tmin tmax sqrt p0 p1).dir = 1 ∧
+    ∃ k, 0 < k ∧ k ^ 2 = dist2 p1 p0 ∧ sub p1 p0 = smul k (Gen.Line3.set tmin tmax sqrt p0 p1).dir := by
   simp only [Gen.Line3.set]
   len_intro hlen L hsq hnn
   have hL : L ≠ 0 := len_ne_zero hsq (sub_ne_zero_of_ne hne)
@@ -59,8 +59,8 @@ theorem Line3_set (tmin : α) (sqrt : α → α) (hlen : LenSpec (Gen.V3.length 
     refine ⟨?_, ?_, ?_⟩ <;> field_simp
 
 /-- degenerate `set(p,p)`: the direction stays the zero vector (nothing is divided by zero) -/
-theorem Line3_set_degenerate (tmin : α) (sqrt : α → α) (hlen : LenSpec (Gen.V3.length tmin sqrt)) (p : V3 α) :
-    Gen.Line3.set tmin sqrt p p = ⟨p, zero⟩ := by
+theorem Line3_set_degenerate (tmin tmax : α) (sqrt : α → α) (hlen : LenSpec (Gen.V3.length tmin tmax sqrt)) (p : V3 α) :
+    Gen.Line3.set tmin tmax sqrt p p = ⟨p, zero⟩ := by
   simp only [Gen.Line3.set]
   len_intro hlen L hsq hnn
   have hL : L = 0 := by
@@ -69,8 +69,8 @@ theorem Line3_set_degenerate (tmin : α) (sqrt : α → α) (hlen : LenSpec (Gen
   rw [if_pos hL]
   simp only [zero, sub_self]
 
-theorem Line3_ctor (tmin : α) (sqrt : α → α) (p0 p1 : V3 α) :
-    Gen.Line3.ctor tmin sqrt p0 p1 = Gen.Line3.set tmin sqrt p0 p1 := rfl
+theorem Line3_ctor (tmin tmax : α) (sqrt : α → α) (p0 p1 : V3 α) :
+    Gen.Line3.ctor tmin tmax sqrt p0 p1 = Gen.Line3.set tmin tmax sqrt p0 p1 := rfl
 
 /-- `operator()(t) = pos + t·dir` -/
 theorem Line3_eval (l : Line3 α) (t : α) : Gen.Line3.eval l t = lineAt l t := by
@@ -97,11 +97,11 @@ theorem Line3_closestPointToPoint (l : Line3 α) (p : V3 α) (hu : dot l.dir l.d
   exact ⟨⟨_, rfl⟩, hperp, dist2_min_of_perp_point l p _ hperp⟩
 
 /-- `distanceTo(point)` is the length of that segment, hence (unit direction) the minimum distance to the line -/
-theorem Line3_distanceToPoint (tmin : α) (sqrt : α → α) (hlen : LenSpec (Gen.V3.length tmin sqrt)) (l : Line3 α) (p : V3 α) :
-    0 ≤ Gen.Line3.distanceToPoint tmin sqrt l p ∧
-    Gen.Line3.distanceToPoint tmin sqrt l p ^ 2 = dist2 (Gen.Line3.closestPointToPoint l p) p ∧
-    (dot l.dir l.dir = 1 → ∀ t, Gen.Line3.distanceToPoint tmin sqrt l p ^ 2 ≤ dist2 p (lineAt l t)) := by
-  have h2 : Gen.Line3.distanceToPoint tmin sqrt l p ^ 2 = dist2 (Gen.Line3.closestPointToPoint l p) p := by
+theorem Line3_distanceToPoint (tmin tmax : α) (sqrt : α → α) (hlen : LenSpec (Gen.V3.length tmin tmax sqrt)) (l : Line3 α) (p : V3 α) :
+    0 ≤ Gen.Line3.distanceToPoint tmin tmax sqrt l p ∧
+    Gen.Line3.distanceToPoint tmin tmax sqrt l p ^ 2 = dist2 (Gen.Line3.closestPointToPoint l p) p ∧
+    (dot l.dir l.dir = 1 → ∀ t, Gen.Line3.distanceToPoint tmin tmax sqrt l p ^ 2 ≤ dist2 p (lineAt l t)) := by
+  have h2 : Gen.Line3.distanceToPoint tmin tmax sqrt l p ^ 2 = dist2 (Gen.Line3.closestPointToPoint l p) p := by
     simp only [Gen.Line3.distanceToPoint, Gen.Line3.closestPointToPoint]
     len_intro hlen L hsq hnn
     rw [hsq]; simp only [dist2, sub]
@@ -269,24 +269,24 @@ no pair of points of the two lines is closer, and some pair realises it (the fee
 parallel lines the distance of `l2.pos` to `l1`); for non-parallel lines it equals `|(p2 − p1)·(d1×d2)| / |d1×d2|`.
 (Until /repo commit 0d82c71 the code omitted the division by `|d1×d2|` and returned 0 for parallel lines; this theorem
 was the check's reported violation `theorem:Line3_distanceToLine`.) -/
-theorem Line3_distanceToLine (tmin : α) (sqrt : α → α) (hlen : LenSpec (Gen.V3.length tmin sqrt)) (l1 l2 : Line3 α)
+theorem Line3_distanceToLine (tmin tmax : α) (sqrt : α → α) (hlen : LenSpec (Gen.V3.length tmin tmax sqrt)) (l1 l2 : Line3 α)
     (hu1 : dot l1.dir l1.dir = 1) (hu2 : dot l2.dir l2.dir = 1) :
-    0 ≤ Gen.Line3.distanceToLine tmin sqrt l1 l2 ∧
-    (∀ s t, Gen.Line3.distanceToLine tmin sqrt l1 l2 ^ 2 ≤ dist2 (lineAt l1 s) (lineAt l2 t)) ∧
-    (∃ s t, Gen.Line3.distanceToLine tmin sqrt l1 l2 ^ 2 = dist2 (lineAt l1 s) (lineAt l2 t)) ∧
+    0 ≤ Gen.Line3.distanceToLine tmin tmax sqrt l1 l2 ∧
+    (∀ s t, Gen.Line3.distanceToLine tmin tmax sqrt l1 l2 ^ 2 ≤ dist2 (lineAt l1 s) (lineAt l2 t)) ∧
+    (∃ s t, Gen.Line3.distanceToLine tmin tmax sqrt l1 l2 ^ 2 = dist2 (lineAt l1 s) (lineAt l2 t)) ∧
     (cross l1.dir l2.dir ≠ zero → ∀ Lc, 0 ≤ Lc → Lc ^ 2 = dot (cross l1.dir l2.dir) (cross l1.dir l2.dir) →
-      Gen.Line3.distanceToLine tmin sqrt l1 l2 * Lc = |dot (sub l2.pos l1.pos) (cross l1.dir l2.dir)|) := by
+      Gen.Line3.distanceToLine tmin tmax sqrt l1 l2 * Lc = |dot (sub l2.pos l1.pos) (cross l1.dir l2.dir)|) := by
   -- it is enough to exhibit feet of a common perpendicular whose squared distance is D²
-  suffices h : 0 ≤ Gen.Line3.distanceToLine tmin sqrt l1 l2 ∧
+  suffices h : 0 ≤ Gen.Line3.distanceToLine tmin tmax sqrt l1 l2 ∧
       (∃ s t, dot (sub (lineAt l1 s) (lineAt l2 t)) l1.dir = 0 ∧ dot (sub (lineAt l1 s) (lineAt l2 t)) l2.dir = 0 ∧
-        Gen.Line3.distanceToLine tmin sqrt l1 l2 ^ 2 = dist2 (lineAt l1 s) (lineAt l2 t)) by
+        Gen.Line3.distanceToLine tmin tmax sqrt l1 l2 ^ 2 = dist2 (lineAt l1 s) (lineAt l2 t)) by
     obtain ⟨h0, s, t, hp1, hp2, hD⟩ := h
     refine ⟨h0, fun s' t' => by rw [hD]; exact dist2_min_of_perp l1 l2 s t hp1 hp2 s' t', ⟨s, t, hD⟩, ?_⟩
     intro hnp Lc hLc0 hLc
     have hV := perp_both_sq (sub (lineAt l1 s) (lineAt l2 t)) l1.dir l2.dir hp1 hp2
     have hVn : dot (sub (lineAt l1 s) (lineAt l2 t)) (cross l1.dir l2.dir) = - dot (sub l2.pos l1.pos) (cross l1.dir l2.dir) := by
       simp only [dot, sub, lineAt, cross]; ring
-    have hsq : (Gen.Line3.distanceToLine tmin sqrt l1 l2 * Lc) ^ 2 = |dot (sub l2.pos l1.pos) (cross l1.dir l2.dir)| ^ 2 := by
+    have hsq : (Gen.Line3.distanceToLine tmin tmax sqrt l1 l2 * Lc) ^ 2 = |dot (sub l2.pos l1.pos) (cross l1.dir l2.dir)| ^ 2 := by
       rw [mul_pow, hD, hLc, sq_abs]
       have : dist2 (lineAt l1 s) (lineAt l2 t) = dot (sub (lineAt l1 s) (lineAt l2 t)) (sub (lineAt l1 s) (lineAt l2 t)) := rfl
       rw [this, hV, hVn]; ring
@@ -337,10 +337,10 @@ theorem Line3_distanceToLine (tmin : α) (sqrt : α → α) (hlen : LenSpec (Gen
       rw [hV]; ring
 
 /-- special case: perpendicular unit directions -/
-theorem Line3_distanceToLine_perpendicular (tmin : α) (sqrt : α → α) (hlen : LenSpec (Gen.V3.length tmin sqrt)) (l1 l2 : Line3 α)
+theorem Line3_distanceToLine_perpendicular (tmin tmax : α) (sqrt : α → α) (hlen : LenSpec (Gen.V3.length tmin tmax sqrt)) (l1 l2 : Line3 α)
     (hu1 : dot l1.dir l1.dir = 1) (hu2 : dot l2.dir l2.dir = 1) (hperp : dot l1.dir l2.dir = 0) :
-    Gen.Line3.distanceToLine tmin sqrt l1 l2 = |dot (sub l2.pos l1.pos) (cross l1.dir l2.dir)| := by
-  obtain ⟨_, _, _, hf⟩ := Line3_distanceToLine tmin sqrt hlen l1 l2 hu1 hu2
+    Gen.Line3.distanceToLine tmin tmax sqrt l1 l2 = |dot (sub l2.pos l1.pos) (cross l1.dir l2.dir)| := by
+  obtain ⟨_, _, _, hf⟩ := Line3_distanceToLine tmin tmax sqrt hlen l1 l2 hu1 hu2
   have hn : dot (cross l1.dir l2.dir) (cross l1.dir l2.dir) = 1 := by rw [lagrange, hu1, hu2, hperp]; ring
   have hnz : cross l1.dir l2.dir ≠ zero := by
     intro h0; rw [h0] at hn; simp only [dot, zero, mul_zero, add_zero] at hn; exact zero_ne_one hn
@@ -349,9 +349,9 @@ theorem Line3_distanceToLine_perpendicular (tmin : α) (sqrt : α → α) (hlen 
 
 /-- the two inputs on which the old code was wrong (it returned 4/5 and 0): the lines `(0,0,0)+s(1,0,0)`,
 `(0,0,1)+t(3/5,4/5,0)` are at distance 1 and the parallel lines `(0,0,0)+s(1,0,0)`, `(0,2,0)+t(1,0,0)` at distance 2 -/
-theorem Line3_distanceToLine_witness_skew (tmin : α) (sqrt : α → α) (hlen : LenSpec (Gen.V3.length tmin sqrt)) :
-    Gen.Line3.distanceToLine tmin sqrt ⟨⟨0, 0, 0⟩, ⟨1, 0, 0⟩⟩ ⟨⟨0, 0, 1⟩, ⟨3 / 5, 4 / 5, 0⟩⟩ = 1 := by
-  obtain ⟨_, _, _, hf⟩ := Line3_distanceToLine tmin sqrt hlen ⟨⟨0, 0, 0⟩, ⟨1, 0, 0⟩⟩ ⟨⟨0, 0, 1⟩, ⟨3 / 5, 4 / 5, 0⟩⟩
+theorem Line3_distanceToLine_witness_skew (tmin tmax : α) (sqrt : α → α) (hlen : LenSpec (Gen.V3.length tmin tmax sqrt)) :
+    Gen.Line3.distanceToLine tmin tmax sqrt ⟨⟨0, 0, 0⟩, ⟨1, 0, 0⟩⟩ ⟨⟨0, 0, 1⟩, ⟨3 / 5, 4 / 5, 0⟩⟩ = 1 := by
+  obtain ⟨_, _, _, hf⟩ := Line3_distanceToLine tmin tmax sqrt hlen ⟨⟨0, 0, 0⟩, ⟨1, 0, 0⟩⟩ ⟨⟨0, 0, 1⟩, ⟨3 / 5, 4 / 5, 0⟩⟩
     (by simp only [dot]; norm_num) (by simp only [dot]; norm_num)
   have hnz : cross (⟨1, 0, 0⟩ : V3 α) ⟨3 / 5, 4 / 5, 0⟩ ≠ zero := by
     simp only [cross, zero, V3.mk.injEq]; norm_num
@@ -360,28 +360,28 @@ theorem Line3_distanceToLine_witness_skew (tmin : α) (sqrt : α → α) (hlen :
   norm_num at h
   linarith
 
-theorem Line3_distanceToLine_witness_parallel (tmin : α) (sqrt : α → α) (hlen : LenSpec (Gen.V3.length tmin sqrt)) :
-    Gen.Line3.distanceToLine tmin sqrt ⟨⟨0, 0, 0⟩, ⟨1, 0, 0⟩⟩ ⟨⟨0, 2, 0⟩, ⟨1, 0, 0⟩⟩ = 2 := by
-  obtain ⟨h0, hmin, ⟨s, t, hex⟩, _⟩ := Line3_distanceToLine tmin sqrt hlen ⟨⟨0, 0, 0⟩, ⟨1, 0, 0⟩⟩ ⟨⟨0, 2, 0⟩, ⟨1, 0, 0⟩⟩
+theorem Line3_distanceToLine_witness_parallel (tmin tmax : α) (sqrt : α → α) (hlen : LenSpec (Gen.V3.length tmin tmax sqrt)) :
+    Gen.Line3.distanceToLine tmin tmax sqrt ⟨⟨0, 0, 0⟩, ⟨1, 0, 0⟩⟩ ⟨⟨0, 2, 0⟩, ⟨1, 0, 0⟩⟩ = 2 := by
+  obtain ⟨h0, hmin, ⟨s, t, hex⟩, _⟩ := Line3_distanceToLine tmin tmax sqrt hlen ⟨⟨0, 0, 0⟩, ⟨1, 0, 0⟩⟩ ⟨⟨0, 2, 0⟩, ⟨1, 0, 0⟩⟩
     (by simp only [dot]; norm_num) (by simp only [dot]; norm_num)
   have h1 := hmin 0 0
   simp only [dist2, dot, sub, lineAt] at h1 hex
-  have h4 : Gen.Line3.distanceToLine tmin sqrt ⟨⟨0, 0, 0⟩, ⟨1, 0, 0⟩⟩ ⟨⟨0, 2, 0⟩, ⟨1, 0, 0⟩⟩ ^ 2 = 4 := by
+  have h4 : Gen.Line3.distanceToLine tmin tmax sqrt ⟨⟨0, 0, 0⟩, ⟨1, 0, 0⟩⟩ ⟨⟨0, 2, 0⟩, ⟨1, 0, 0⟩⟩ ^ 2 = 4 := by
     apply le_antisymm
     · nlinarith
     · rw [hex]; nlinarith [sq_nonneg (s - t)]
-  nlinarith [sq_nonneg (Gen.Line3.distanceToLine tmin sqrt (⟨⟨0, 0, 0⟩, ⟨1, 0, 0⟩⟩ : Line3 α) ⟨⟨0, 2, 0⟩, ⟨1, 0, 0⟩⟩ - 2)]
+  nlinarith [sq_nonneg (Gen.Line3.distanceToLine tmin tmax sqrt (⟨⟨0, 0, 0⟩, ⟨1, 0, 0⟩⟩ : Line3 α) ⟨⟨0, 2, 0⟩, ⟨1, 0, 0⟩⟩ - 2)]
 
 /-! ## Plane3 -/
 
 /-- plane through three non-collinear points: unit normal, positively parallel to `(p2−p1)×(p3−p1)`, and all three
 defining points have signed distance zero -/
-theorem Plane3_setPoints (tmin : α) (sqrt : α → α) (hlen : LenSpec (Gen.V3.length tmin sqrt)) (p1 p2 p3 : V3 α)
+theorem Plane3_setPoints (tmin tmax : α) (sqrt : α → α) (hlen : LenSpec (Gen.V3.length tmin tmax sqrt)) (p1 p2 p3 : V3 α)
     (hnc : cross (sub p2 p1) (sub p3 p1) ≠ zero) :
-    dot (Gen.Plane3.setPoints tmin sqrt p1 p2 p3).normal (Gen.Plane3.setPoints tmin sqrt p1 p2 p3).normal = 1 ∧
-    OnPlane (Gen.Plane3.setPoints tmin sqrt p1 p2 p3) p1 ∧ OnPlane (Gen.Plane3.setPoints tmin sqrt p1 p2 p3) p2 ∧
-    OnPlane (Gen.Plane3.setPoints tmin sqrt p1 p2 p3) p3 ∧
-    ∃ k, 0 < k ∧ cross (sub p2 p1) (sub p3 p1) = smul k (Gen.Plane3.setPoints tmin sqrt p1 p2 p3).normal := by
+    dot (Gen.Plane3.setPoints tmin tmax sqrt p1 p2 p3).normal (Gen.Plane3.setPoints tmin tmax sqrt p1 p2 p3).normal = 1 ∧
+    OnPlane (Gen.Plane3.setPoints tmin tmax sqrt p1 p2 p3) p1 ∧ OnPlane (Gen.Plane3.setPoints tmin tmax sqrt p1 p2 p3) p2 ∧
+    OnPlane (Gen.Plane3.setPoints tmin tmax sqrt p1 p2 p3) p3 ∧
+    ∃ k, 0 < k ∧ cross (sub p2 p1) (sub p3 p1) = smul k (Gen.Plane3.setPoints tmin tmax sqrt p1 p2 p3).normal := by
   simp only [Gen.Plane3.setPoints]
   len_intro hlen L hsq hnn
   have hL : L ≠ 0 := len_ne_zero hsq (by simpa only [cross, sub] using hnc)
@@ -397,9 +397,9 @@ theorem Plane3_setPoints (tmin : α) (sqrt : α → α) (hlen : LenSpec (Gen.V3.
     refine ⟨?_, ?_, ?_⟩ <;> field_simp
 
 /-- collinear points: the normal stays the zero vector (nothing is divided by zero) -/
-theorem Plane3_setPoints_degenerate (tmin : α) (sqrt : α → α) (hlen : LenSpec (Gen.V3.length tmin sqrt)) (p1 p2 p3 : V3 α)
+theorem Plane3_setPoints_degenerate (tmin tmax : α) (sqrt : α → α) (hlen : LenSpec (Gen.V3.length tmin tmax sqrt)) (p1 p2 p3 : V3 α)
     (hc : cross (sub p2 p1) (sub p3 p1) = zero) :
-    Gen.Plane3.setPoints tmin sqrt p1 p2 p3 = ⟨zero, 0⟩ := by
+    Gen.Plane3.setPoints tmin tmax sqrt p1 p2 p3 = ⟨zero, 0⟩ := by
   simp only [Gen.Plane3.setPoints]
   len_intro hlen L hsq hnn
   simp only [cross, sub, zero, V3.mk.injEq] at hc
@@ -410,14 +410,14 @@ theorem Plane3_setPoints_degenerate (tmin : α) (sqrt : α → α) (hlen : LenSp
   rw [if_pos hL]
   simp only [zero, h1, h2, h3, zero_mul, add_zero]
 
-theorem Plane3_ctorPoints (tmin : α) (sqrt : α → α) (p1 p2 p3 : V3 α) :
-    Gen.Plane3.ctorPoints tmin sqrt p1 p2 p3 = Gen.Plane3.setPoints tmin sqrt p1 p2 p3 := rfl
+theorem Plane3_ctorPoints (tmin tmax : α) (sqrt : α → α) (p1 p2 p3 : V3 α) :
+    Gen.Plane3.ctorPoints tmin tmax sqrt p1 p2 p3 = Gen.Plane3.setPoints tmin tmax sqrt p1 p2 p3 := rfl
 
 /-- point + (non-zero) normal: unit normal positively parallel to `n`, the defining point has signed distance zero -/
-theorem Plane3_setPointNormal (tmin : α) (sqrt : α → α) (hlen : LenSpec (Gen.V3.length tmin sqrt)) (point n : V3 α) (hn : n ≠ zero) :
-    dot (Gen.Plane3.setPointNormal tmin sqrt point n).normal (Gen.Plane3.setPointNormal tmin sqrt point n).normal = 1 ∧
-    OnPlane (Gen.Plane3.setPointNormal tmin sqrt point n) point ∧
-    ∃ k, 0 < k ∧ n = smul k (Gen.Plane3.setPointNormal tmin sqrt point n).normal := by
+theorem Plane3_setPointNormal (tmin tmax : α) (sqrt : α → α) (hlen : LenSpec (Gen.V3.length tmin tmax sqrt)) (point n : V3 α) (hn : n ≠ zero) :
+    dot (Gen.Plane3.setPointNormal tmin tmax sqrt point n).normal (Gen.Plane3.setPointNormal tmin tmax sqrt point n).normal = 1 ∧
+    OnPlane (Gen.Plane3.setPointNormal tmin tmax sqrt point n) point ∧
+    ∃ k, 0 < k ∧ n = smul k (Gen.Plane3.setPointNormal tmin tmax sqrt point n).normal := by
   simp only [Gen.Plane3.setPointNormal]
   len_intro hlen L hsq hnn
   have hL : L ≠ 0 := len_ne_zero hsq (by cases n; simpa only [zero] using hn)
@@ -430,16 +430,16 @@ theorem Plane3_setPointNormal (tmin : α) (sqrt : α → α) (hlen : LenSpec (Ge
   · cases n; simp only [smul, V3.mk.injEq]
     refine ⟨?_, ?_, ?_⟩ <;> field_simp
 
-theorem Plane3_ctorPointNormal (tmin : α) (sqrt : α → α) (point n : V3 α) :
-    Gen.Plane3.ctorPointNormal tmin sqrt point n = Gen.Plane3.setPointNormal tmin sqrt point n := rfl
+theorem Plane3_ctorPointNormal (tmin tmax : α) (sqrt : α → α) (point n : V3 α) :
+    Gen.Plane3.ctorPointNormal tmin tmax sqrt point n = Gen.Plane3.setPointNormal tmin tmax sqrt point n := rfl
 
 /-- (non-zero) normal + distance: unit normal positively parallel to `n`, `distance = d`, and the point `d·normal`
 is on the plane -/
-theorem Plane3_setNormalDistance (tmin : α) (sqrt : α → α) (hlen : LenSpec (Gen.V3.length tmin sqrt)) (n : V3 α) (d : α) (hn : n ≠ zero) :
-    dot (Gen.Plane3.setNormalDistance tmin sqrt n d).normal (Gen.Plane3.setNormalDistance tmin sqrt n d).normal = 1 ∧
-    (Gen.Plane3.setNormalDistance tmin sqrt n d).distance = d ∧
-    OnPlane (Gen.Plane3.setNormalDistance tmin sqrt n d) (smul d (Gen.Plane3.setNormalDistance tmin sqrt n d).normal) ∧
-    ∃ k, 0 < k ∧ n = smul k (Gen.Plane3.setNormalDistance tmin sqrt n d).normal := by
+theorem Plane3_setNormalDistance (tmin tmax : α) (sqrt : α → α) (hlen : LenSpec (Gen.V3.length tmin tmax sqrt)) (n : V3 α) (d : α) (hn : n ≠ zero) :
+    dot (Gen.Plane3.setNormalDistance tmin tmax sqrt n d).normal (Gen.Plane3.setNormalDistance tmin tmax sqrt n d).normal = 1 ∧
+    (Gen.Plane3.setNormalDistance tmin tmax sqrt n d).distance = d ∧
+    OnPlane (Gen.Plane3.setNormalDistance tmin tmax sqrt n d) (smul d (Gen.Plane3.setNormalDistance tmin tmax sqrt n d).normal) ∧
+    ∃ k, 0 < k ∧ n = smul k (Gen.Plane3.setNormalDistance tmin tmax sqrt n d).normal := by
   simp only [Gen.Plane3.setNormalDistance]
   len_intro hlen L hsq hnn
   have hL : L ≠ 0 := len_ne_zero hsq (by cases n; simpa only [zero] using hn)
@@ -452,8 +452,8 @@ theorem Plane3_setNormalDistance (tmin : α) (sqrt : α → α) (hlen : LenSpec 
   · cases n; simp only [smul, V3.mk.injEq]
     refine ⟨?_, ?_, ?_⟩ <;> field_simp
 
-theorem Plane3_ctorNormalDistance (tmin : α) (sqrt : α → α) (n : V3 α) (d : α) :
-    Gen.Plane3.ctorNormalDistance tmin sqrt n d = Gen.Plane3.setNormalDistance tmin sqrt n d := rfl
+theorem Plane3_ctorNormalDistance (tmin tmax : α) (sqrt : α → α) (n : V3 α) (d : α) :
+    Gen.Plane3.ctorNormalDistance tmin tmax sqrt n d = Gen.Plane3.setNormalDistance tmin tmax sqrt n d := rfl
 
 /-- `distanceTo` is the signed distance `normal·p − distance` -/
 theorem Plane3_distanceTo (pl : Plane3 α) (p : V3 α) : Gen.Plane3.distanceTo pl p = signedDist pl p := by
@@ -545,11 +545,11 @@ theorem Plane3_intersect (pl : Plane3 α) (l : Line3 α) :
     · rw [hpt]; exact hT.2.1
 
 /-- unary minus of a plane with unit normal: the same point set with the opposite orientation -/
-theorem Plane3_neg (tmin : α) (sqrt : α → α) (hlen : LenSpec (Gen.V3.length tmin sqrt)) (pl : Plane3 α)
+theorem Plane3_neg (tmin tmax : α) (sqrt : α → α) (hlen : LenSpec (Gen.V3.length tmin tmax sqrt)) (pl : Plane3 α)
     (hu : dot pl.normal pl.normal = 1) :
-    Gen.Plane3.neg tmin sqrt pl = ⟨neg pl.normal, -pl.distance⟩ ∧
-    ∀ p, signedDist (Gen.Plane3.neg tmin sqrt pl) p = - signedDist pl p := by
-  have h1 : Gen.Plane3.neg tmin sqrt pl = ⟨neg pl.normal, -pl.distance⟩ := by
+    Gen.Plane3.neg tmin tmax sqrt pl = ⟨neg pl.normal, -pl.distance⟩ ∧
+    ∀ p, signedDist (Gen.Plane3.neg tmin tmax sqrt pl) p = - signedDist pl p := by
+  have h1 : Gen.Plane3.neg tmin tmax sqrt pl = ⟨neg pl.normal, -pl.distance⟩ := by
     simp only [Gen.Plane3.neg]
     len_intro hlen L hsq hnn
     have hL : L = 1 := by
@@ -564,16 +564,16 @@ theorem Plane3_neg (tmin : α) (sqrt : α → α) (hlen : LenSpec (Gen.V3.length
 /-! ## operator* (Plane3, Matrix44) -/
 
 /-- the plane through the images of `point = d·n`, `point + D×n`, `point + D` -/
-def planeVia (tmin : α) (sqrt : α → α) (pl : Plane3 α) (m : M44 α) (D : V3 α) : Plane3 α :=
-  Gen.Plane3.setPoints tmin sqrt (mulM44 (smul pl.distance pl.normal) m)
+def planeVia (tmin tmax : α) (sqrt : α → α) (pl : Plane3 α) (m : M44 α) (D : V3 α) : Plane3 α :=
+  Gen.Plane3.setPoints tmin tmax sqrt (mulM44 (smul pl.distance pl.normal) m)
     (mulM44 (add (smul pl.distance pl.normal) (cross D pl.normal)) m) (mulM44 (add (smul pl.distance pl.normal) D) m)
 
-theorem Plane3_mulM44_cases (tmin : α) (sqrt : α → α) (pl : Plane3 α) (m : M44 α) :
+theorem Plane3_mulM44_cases (tmin tmax : α) (sqrt : α → α) (pl : Plane3 α) (m : M44 α) :
     ∃ D, (D = cross ⟨1, 0, 0⟩ pl.normal ∨ D = cross ⟨0, 1, 0⟩ pl.normal ∨ D = cross ⟨0, 0, 1⟩ pl.normal) ∧
       dot (cross ⟨1, 0, 0⟩ pl.normal) (cross ⟨1, 0, 0⟩ pl.normal) ≤ dot D D ∧
       dot (cross ⟨0, 1, 0⟩ pl.normal) (cross ⟨0, 1, 0⟩ pl.normal) ≤ dot D D ∧
       dot (cross ⟨0, 0, 1⟩ pl.normal) (cross ⟨0, 0, 1⟩ pl.normal) ≤ dot D D ∧
-      Gen.Plane3.mulM44 tmin sqrt pl m = planeVia tmin sqrt pl m D := by
+      Gen.Plane3.mulM44 tmin tmax sqrt pl m = planeVia tmin tmax sqrt pl m D := by
   by_cases c1 : dot (cross ⟨1, 0, 0⟩ pl.normal) (cross ⟨1, 0, 0⟩ pl.normal) < dot (cross ⟨0, 1, 0⟩ pl.normal) (cross ⟨0, 1, 0⟩ pl.normal)
   · by_cases c2 : dot (cross ⟨0, 1, 0⟩ pl.normal) (cross ⟨0, 1, 0⟩ pl.normal) < dot (cross ⟨0, 0, 1⟩ pl.normal) (cross ⟨0, 0, 1⟩ pl.normal)
     · refine ⟨cross ⟨0, 0, 1⟩ pl.normal, Or.inr (Or.inr rfl), by linarith, by linarith, le_refl _, ?_⟩
@@ -594,11 +594,11 @@ theorem Plane3_mulM44_cases (tmin : α) (sqrt : α → α) (pl : Plane3 α) (m :
 unit normal and the signed distance of every transformed point is a POSITIVE multiple `κ` of `det(M₃ₓ₃)` times the
 original signed distance.  Hence `p` on the plane ⇒ `p*M` on `plane*M` (it contains the transformed points of the
 plane), and for `det > 0` every point stays on the same side (for `det < 0` the sides are swapped). -/
-theorem Plane3_mulM44 (tmin : α) (sqrt : α → α) (hlen : LenSpec (Gen.V3.length tmin sqrt)) (pl : Plane3 α) (m : M44 α)
+theorem Plane3_mulM44 (tmin tmax : α) (sqrt : α → α) (hlen : LenSpec (Gen.V3.length tmin tmax sqrt)) (pl : Plane3 α) (m : M44 α)
     (hu : dot pl.normal pl.normal = 1) (haff : Affine m) (hdet : det3 m ≠ 0) :
-    dot (Gen.Plane3.mulM44 tmin sqrt pl m).normal (Gen.Plane3.mulM44 tmin sqrt pl m).normal = 1 ∧
-    ∃ κ, 0 < κ ∧ ∀ p, signedDist (Gen.Plane3.mulM44 tmin sqrt pl m) (mulM44 p m) = κ * det3 m * signedDist pl p := by
-  obtain ⟨D, hD, h1, h2, h3, heq⟩ := Plane3_mulM44_cases tmin sqrt pl m
+    dot (Gen.Plane3.mulM44 tmin tmax sqrt pl m).normal (Gen.Plane3.mulM44 tmin tmax sqrt pl m).normal = 1 ∧
+    ∃ κ, 0 < κ ∧ ∀ p, signedDist (Gen.Plane3.mulM44 tmin tmax sqrt pl m) (mulM44 p m) = κ * det3 m * signedDist pl p := by
+  obtain ⟨D, hD, h1, h2, h3, heq⟩ := Plane3_mulM44_cases tmin tmax sqrt pl m
   have hDn : dot D pl.normal = 0 := by
     rcases hD with h | h | h <;> (rw [h]; simp only [dot, cross]; ring)
   have hDpos : 0 < dot D D := by
@@ -608,20 +608,20 @@ theorem Plane3_mulM44 (tmin : α) (sqrt : α → α) (hlen : LenSpec (Gen.V3.len
     rw [hu] at hsum
     linarith
   have hnc := xformNormal_ne_zero pl.normal pl.distance m D haff hdet hu hDn hDpos
-  obtain ⟨hunit, hP0, _, _, k, hk, hkN⟩ := Plane3_setPoints tmin sqrt hlen _ _ _ hnc
+  obtain ⟨hunit, hP0, _, _, k, hk, hkN⟩ := Plane3_setPoints tmin tmax sqrt hlen _ _ _ hnc
   rw [heq]
   refine ⟨hunit, dot D D / k, div_pos hDpos hk, fun p => ?_⟩
   have hcore := plane_xform_core pl.normal pl.distance m D p haff
   have e1 : dot pl.normal (sub p (smul pl.distance pl.normal)) = signedDist pl p := by
     simp only [dot, sub, smul, signedDist] at hu ⊢; linear_combination (-pl.distance) * hu
   rw [hDn, e1, zero_mul, sub_zero] at hcore
-  have e2 : ∀ v, dot (xformNormal pl.normal pl.distance m D) v = k * dot (planeVia tmin sqrt pl m D).normal v := by
+  have e2 : ∀ v, dot (xformNormal pl.normal pl.distance m D) v = k * dot (planeVia tmin tmax sqrt pl m D).normal v := by
     intro v
     unfold xformNormal planeVia
     rw [hkN]; simp only [dot, smul]; ring
-  have e3 : signedDist (planeVia tmin sqrt pl m D) (mulM44 p m)
-      = dot (planeVia tmin sqrt pl m D).normal (sub (mulM44 p m) (mulM44 (smul pl.distance pl.normal) m)) := by
-    have h0 : signedDist (planeVia tmin sqrt pl m D) (mulM44 (smul pl.distance pl.normal) m) = 0 := hP0
+  have e3 : signedDist (planeVia tmin tmax sqrt pl m D) (mulM44 p m)
+      = dot (planeVia tmin tmax sqrt pl m D).normal (sub (mulM44 p m) (mulM44 (smul pl.distance pl.normal) m)) := by
+    have h0 : signedDist (planeVia tmin tmax sqrt pl m D) (mulM44 (smul pl.distance pl.normal) m) = 0 := hP0
     simp only [signedDist, dot, sub] at h0 ⊢
     linear_combination h0
   rw [e3]
@@ -630,10 +630,10 @@ theorem Plane3_mulM44 (tmin : α) (sqrt : α → α) (hlen : LenSpec (Gen.V3.len
   linear_combination hcore
 
 /-- corollary: `plane * M` contains the image of every point of the plane, and only those -/
-theorem Plane3_mulM44_contains (tmin : α) (sqrt : α → α) (hlen : LenSpec (Gen.V3.length tmin sqrt)) (pl : Plane3 α) (m : M44 α)
+theorem Plane3_mulM44_contains (tmin tmax : α) (sqrt : α → α) (hlen : LenSpec (Gen.V3.length tmin tmax sqrt)) (pl : Plane3 α) (m : M44 α)
     (hu : dot pl.normal pl.normal = 1) (haff : Affine m) (hdet : det3 m ≠ 0) (p : V3 α) :
-    OnPlane (Gen.Plane3.mulM44 tmin sqrt pl m) (mulM44 p m) ↔ OnPlane pl p := by
-  obtain ⟨_, κ, hκ, h⟩ := Plane3_mulM44 tmin sqrt hlen pl m hu haff hdet
+    OnPlane (Gen.Plane3.mulM44 tmin tmax sqrt pl m) (mulM44 p m) ↔ OnPlane pl p := by
+  obtain ⟨_, κ, hκ, h⟩ := Plane3_mulM44 tmin tmax sqrt hlen pl m hu haff hdet
   unfold OnPlane
   rw [h p]
   constructor
@@ -646,11 +646,11 @@ theorem Plane3_mulM44_contains (tmin : α) (sqrt : α → α) (hlen : LenSpec (G
   · intro h0; rw [h0, mul_zero]
 
 /-- corollary: an orientation-preserving `M` keeps every point on the same side of the plane -/
-theorem Plane3_mulM44_sides (tmin : α) (sqrt : α → α) (hlen : LenSpec (Gen.V3.length tmin sqrt)) (pl : Plane3 α) (m : M44 α)
+theorem Plane3_mulM44_sides (tmin tmax : α) (sqrt : α → α) (hlen : LenSpec (Gen.V3.length tmin tmax sqrt)) (pl : Plane3 α) (m : M44 α)
     (hu : dot pl.normal pl.normal = 1) (haff : Affine m) (hdet : 0 < det3 m) (p : V3 α) :
-    (0 < signedDist (Gen.Plane3.mulM44 tmin sqrt pl m) (mulM44 p m) ↔ 0 < signedDist pl p) ∧
-    (signedDist (Gen.Plane3.mulM44 tmin sqrt pl m) (mulM44 p m) < 0 ↔ signedDist pl p < 0) := by
-  obtain ⟨_, κ, hκ, h⟩ := Plane3_mulM44 tmin sqrt hlen pl m hu haff (ne_of_gt hdet)
+    (0 < signedDist (Gen.Plane3.mulM44 tmin tmax sqrt pl m) (mulM44 p m) ↔ 0 < signedDist pl p) ∧
+    (signedDist (Gen.Plane3.mulM44 tmin tmax sqrt pl m) (mulM44 p m) < 0 ↔ signedDist pl p < 0) := by
+  obtain ⟨_, κ, hκ, h⟩ := Plane3_mulM44 tmin tmax sqrt hlen pl m hu haff (ne_of_gt hdet)
   rw [h p]
   have hpos : 0 < κ * det3 m := mul_pos hκ hdet
   constructor
@@ -737,10 +737,10 @@ theorem Sphere3_intersect (sqrt : α → α) (s : Sphere3 α) (l : Line3 α) :
 
 /-- `circumscribe(box)`: the centre is the midpoint, the radius the half diagonal; every point of the box (in
 particular every corner) is inside the closed ball, and the corners `min`, `max` are ON the sphere (tight) -/
-theorem Sphere3_circumscribe (tmin : α) (sqrt : α → α) (hlen : LenSpec (Gen.V3.length tmin sqrt)) (b : Box3 α) :
-    (∀ p, InBox b p → InBall (Gen.Sphere3.circumscribe tmin sqrt b) p) ∧
-    OnSphere (Gen.Sphere3.circumscribe tmin sqrt b) b.max ∧ OnSphere (Gen.Sphere3.circumscribe tmin sqrt b) b.min ∧
-    0 ≤ (Gen.Sphere3.circumscribe tmin sqrt b).radius := by
+theorem Sphere3_circumscribe (tmin tmax : α) (sqrt : α → α) (hlen : LenSpec (Gen.V3.length tmin tmax sqrt)) (b : Box3 α) :
+    (∀ p, InBox b p → InBall (Gen.Sphere3.circumscribe tmin tmax sqrt b) p) ∧
+    OnSphere (Gen.Sphere3.circumscribe tmin tmax sqrt b) b.max ∧ OnSphere (Gen.Sphere3.circumscribe tmin tmax sqrt b) b.min ∧
+    0 ≤ (Gen.Sphere3.circumscribe tmin tmax sqrt b).radius := by
   simp only [Gen.Sphere3.circumscribe]
   len_intro hlen R hsq hnn
   have hR : R * R = R ^ 2 := by ring
@@ -757,8 +757,8 @@ theorem Sphere3_circumscribe (tmin : α) (sqrt : α → α) (hlen : LenSpec (Gen
 /-! ## ImathVecAlgo.h: project / orthogonal / reflect / closestVertex -/
 
 /-- `project(s,t)` is the orthogonal projection of `t` onto the direction of `s`: `((s·t)/(s·s))·s`; `0` for `s = 0` -/
-theorem VecAlgo3_project (tmin : α) (sqrt : α → α) (hlen : LenSpec (Gen.V3.length tmin sqrt)) (s t : V3 α) :
-    Gen.VecAlgo3.project tmin sqrt s t = smul (dot s t / dot s s) s := by
+theorem VecAlgo3_project (tmin tmax : α) (sqrt : α → α) (hlen : LenSpec (Gen.V3.length tmin tmax sqrt)) (s t : V3 α) :
+    Gen.VecAlgo3.project tmin tmax sqrt s t = smul (dot s t / dot s s) s := by
   simp only [Gen.VecAlgo3.project]
   len_intro hlen L hsq hnn
   split_ifs with h0
@@ -769,15 +769,15 @@ theorem VecAlgo3_project (tmin : α) (sqrt : α → α) (hlen : LenSpec (Gen.V3.
   · rw [← hsq]; simp only [smul, dot, V3.mk.injEq]; refine ⟨?_, ?_, ?_⟩ <;> ring
 
 /-- `orthogonal(s,t) = t − project(s,t)`: it is perpendicular to `s`, and `project + orthogonal = t` -/
-theorem VecAlgo3_orthogonal (tmin : α) (sqrt : α → α) (hlen : LenSpec (Gen.V3.length tmin sqrt)) (s t : V3 α) :
-    Gen.VecAlgo3.orthogonal tmin sqrt s t = sub t (Gen.VecAlgo3.project tmin sqrt s t) ∧
-    dot (Gen.VecAlgo3.orthogonal tmin sqrt s t) s = 0 ∧
-    add (Gen.VecAlgo3.project tmin sqrt s t) (Gen.VecAlgo3.orthogonal tmin sqrt s t) = t := by
-  have h1 : Gen.VecAlgo3.orthogonal tmin sqrt s t = sub t (Gen.VecAlgo3.project tmin sqrt s t) := by
+theorem VecAlgo3_orthogonal (tmin tmax : α) (sqrt : α → α) (hlen : LenSpec (Gen.V3.length tmin tmax sqrt)) (s t : V3 α) :
+    Gen.VecAlgo3.orthogonal tmin tmax sqrt s t = sub t (Gen.VecAlgo3.project tmin tmax sqrt s t) ∧
+    dot (Gen.VecAlgo3.orthogonal tmin tmax sqrt s t) s = 0 ∧
+    add (Gen.VecAlgo3.project tmin tmax sqrt s t) (Gen.VecAlgo3.orthogonal tmin tmax sqrt s t) = t := by
+  have h1 : Gen.VecAlgo3.orthogonal tmin tmax sqrt s t = sub t (Gen.VecAlgo3.project tmin tmax sqrt s t) := by
     simp only [Gen.VecAlgo3.orthogonal, Gen.VecAlgo3.project]
     split_ifs <;> rfl
   refine ⟨h1, ?_, ?_⟩
-  · rw [h1, VecAlgo3_project tmin sqrt hlen]
+  · rw [h1, VecAlgo3_project tmin tmax sqrt hlen]
     have key : ∀ k, dot (sub t (smul k s)) s = dot s t - k * dot s s := by
       intro k; simp only [dot, sub, smul]; ring
     rw [key]
@@ -790,23 +790,23 @@ theorem VecAlgo3_orthogonal (tmin : α) (sqrt : α → α) (hlen : LenSpec (Gen.
 
 /-- `reflect(s,t) = 2·project(t,s) − s` (mirror image of `s` in the line along `t`; the component of `s` along `t` is
 kept, the perpendicular one negated).  It preserves length and is an involution -/
-theorem VecAlgo3_reflect (tmin : α) (sqrt : α → α) (hlen : LenSpec (Gen.V3.length tmin sqrt)) (s t : V3 α) :
-    Gen.VecAlgo3.reflect tmin sqrt s t = sub (smul 2 (Gen.VecAlgo3.project tmin sqrt t s)) s ∧
-    dot (Gen.VecAlgo3.reflect tmin sqrt s t) (Gen.VecAlgo3.reflect tmin sqrt s t) = dot s s ∧
-    Gen.VecAlgo3.reflect tmin sqrt (Gen.VecAlgo3.reflect tmin sqrt s t) t = s := by
-  have h1 : ∀ s, Gen.VecAlgo3.reflect tmin sqrt s t = sub (smul 2 (Gen.VecAlgo3.project tmin sqrt t s)) s := by
+theorem VecAlgo3_reflect (tmin tmax : α) (sqrt : α → α) (hlen : LenSpec (Gen.V3.length tmin tmax sqrt)) (s t : V3 α) :
+    Gen.VecAlgo3.reflect tmin tmax sqrt s t = sub (smul 2 (Gen.VecAlgo3.project tmin tmax sqrt t s)) s ∧
+    dot (Gen.VecAlgo3.reflect tmin tmax sqrt s t) (Gen.VecAlgo3.reflect tmin tmax sqrt s t) = dot s s ∧
+    Gen.VecAlgo3.reflect tmin tmax sqrt (Gen.VecAlgo3.reflect tmin tmax sqrt s t) t = s := by
+  have h1 : ∀ s, Gen.VecAlgo3.reflect tmin tmax sqrt s t = sub (smul 2 (Gen.VecAlgo3.project tmin tmax sqrt t s)) s := by
     intro s
     simp only [Gen.VecAlgo3.reflect, Gen.VecAlgo3.project]
     split_ifs <;> (simp only [sub, smul, V3.mk.injEq]; refine ⟨?_, ?_, ?_⟩ <;> ring)
   refine ⟨h1 s, ?_, ?_⟩
-  · rw [h1, VecAlgo3_project tmin sqrt hlen]
+  · rw [h1, VecAlgo3_project tmin tmax sqrt hlen]
     have key : ∀ k, dot (sub (smul 2 (smul k t)) s) (sub (smul 2 (smul k t)) s) = dot s s + 4 * k * (k * dot t t - dot t s) := by
       intro k; simp only [dot, sub, smul]; ring
     rw [key]
     by_cases ht : dot t t = 0
     · rw [ht]; simp only [div_zero, zero_mul, mul_zero, sub_zero, add_zero]
     · field_simp; ring
-  · rw [h1, h1, VecAlgo3_project tmin sqrt hlen, VecAlgo3_project tmin sqrt hlen]
+  · rw [h1, h1, VecAlgo3_project tmin tmax sqrt hlen, VecAlgo3_project tmin tmax sqrt hlen]
     have key : ∀ k v, dot t (sub (smul 2 (smul k t)) v) = 2 * k * dot t t - dot t v := by
       intro k v; simp only [dot, sub, smul]; ring
     rw [key]
@@ -834,8 +834,8 @@ theorem VecAlgo3_closestVertex (v0 v1 v2 p : V3 α) :
 
 /-! the same for `Vec2` and `Vec4` (the templates are generic in the vector type) -/
 
-theorem VecAlgo2_project (tmin : α) (sqrt : α → α) (hlen : LenSpec2 (Gen.V2.length tmin sqrt)) (s t : V2 α) :
-    Gen.VecAlgo2.project tmin sqrt s t = smul2 (dot2 s t / dot2 s s) s := by
+theorem VecAlgo2_project (tmin tmax : α) (sqrt : α → α) (hlen : LenSpec2 (Gen.V2.length tmin tmax sqrt)) (s t : V2 α) :
+    Gen.VecAlgo2.project tmin tmax sqrt s t = smul2 (dot2 s t / dot2 s s) s := by
   simp only [Gen.VecAlgo2.project]
   len_intro hlen L hsq hnn
   split_ifs with h0
@@ -845,15 +845,15 @@ theorem VecAlgo2_project (tmin : α) (sqrt : α → α) (hlen : LenSpec2 (Gen.V2
     simp only [smul2, dot2, h1, h2, V2.mk.injEq]; refine ⟨?_, ?_⟩ <;> ring
   · rw [← hsq]; simp only [smul2, dot2, V2.mk.injEq]; refine ⟨?_, ?_⟩ <;> ring
 
-theorem VecAlgo2_orthogonal (tmin : α) (sqrt : α → α) (hlen : LenSpec2 (Gen.V2.length tmin sqrt)) (s t : V2 α) :
-    Gen.VecAlgo2.orthogonal tmin sqrt s t = sub2 t (Gen.VecAlgo2.project tmin sqrt s t) ∧
-    dot2 (Gen.VecAlgo2.orthogonal tmin sqrt s t) s = 0 ∧
-    add2 (Gen.VecAlgo2.project tmin sqrt s t) (Gen.VecAlgo2.orthogonal tmin sqrt s t) = t := by
-  have h1 : Gen.VecAlgo2.orthogonal tmin sqrt s t = sub2 t (Gen.VecAlgo2.project tmin sqrt s t) := by
+theorem VecAlgo2_orthogonal (tmin tmax : α) (sqrt : α → α) (hlen : LenSpec2 (Gen.V2.length tmin tmax sqrt)) (s t : V2 α) :
+    Gen.VecAlgo2.orthogonal tmin tmax sqrt s t = sub2 t (Gen.VecAlgo2.project tmin tmax sqrt s t) ∧
+    dot2 (Gen.VecAlgo2.orthogonal tmin tmax sqrt s t) s = 0 ∧
+    add2 (Gen.VecAlgo2.project tmin tmax sqrt s t) (Gen.VecAlgo2.orthogonal tmin tmax sqrt s t) = t := by
+  have h1 : Gen.VecAlgo2.orthogonal tmin tmax sqrt s t = sub2 t (Gen.VecAlgo2.project tmin tmax sqrt s t) := by
     simp only [Gen.VecAlgo2.orthogonal, Gen.VecAlgo2.project]
     split_ifs <;> rfl
   refine ⟨h1, ?_, ?_⟩
-  · rw [h1, VecAlgo2_project tmin sqrt hlen]
+  · rw [h1, VecAlgo2_project tmin tmax sqrt hlen]
     have key : ∀ k, dot2 (sub2 t (smul2 k s)) s = dot2 s t - k * dot2 s s := by
       intro k; simp only [dot2, sub2, smul2]; ring
     rw [key]
@@ -864,23 +864,23 @@ theorem VecAlgo2_orthogonal (tmin : α) (sqrt : α → α) (hlen : LenSpec2 (Gen
     · field_simp; ring
   · rw [h1]; cases t; simp only [add2, sub2, V2.mk.injEq]; refine ⟨?_, ?_⟩ <;> ring
 
-theorem VecAlgo2_reflect (tmin : α) (sqrt : α → α) (hlen : LenSpec2 (Gen.V2.length tmin sqrt)) (s t : V2 α) :
-    Gen.VecAlgo2.reflect tmin sqrt s t = sub2 (smul2 2 (Gen.VecAlgo2.project tmin sqrt t s)) s ∧
-    dot2 (Gen.VecAlgo2.reflect tmin sqrt s t) (Gen.VecAlgo2.reflect tmin sqrt s t) = dot2 s s ∧
-    Gen.VecAlgo2.reflect tmin sqrt (Gen.VecAlgo2.reflect tmin sqrt s t) t = s := by
-  have h1 : ∀ s, Gen.VecAlgo2.reflect tmin sqrt s t = sub2 (smul2 2 (Gen.VecAlgo2.project tmin sqrt t s)) s := by
+theorem VecAlgo2_reflect (tmin tmax : α) (sqrt : α → α) (hlen : LenSpec2 (Gen.V2.length tmin tmax sqrt)) (s t : V2 α) :
+    Gen.VecAlgo2.reflect tmin tmax sqrt s t = sub2 (smul2 2 (Gen.VecAlgo2.project tmin tmax sqrt t s)) s ∧
+    dot2 (Gen.VecAlgo2.reflect tmin tmax sqrt s t) (Gen.VecAlgo2.reflect tmin tmax sqrt s t) = dot2 s s ∧
+    Gen.VecAlgo2.reflect tmin tmax sqrt (Gen.VecAlgo2.reflect tmin tmax sqrt s t) t = s := by
+  have h1 : ∀ s, Gen.VecAlgo2.reflect tmin tmax sqrt s t = sub2 (smul2 2 (Gen.VecAlgo2.project tmin tmax sqrt t s)) s := by
     intro s
     simp only [Gen.VecAlgo2.reflect, Gen.VecAlgo2.project]
     split_ifs <;> (simp only [sub2, smul2, V2.mk.injEq]; refine ⟨?_, ?_⟩ <;> ring)
   refine ⟨h1 s, ?_, ?_⟩
-  · rw [h1, VecAlgo2_project tmin sqrt hlen]
+  · rw [h1, VecAlgo2_project tmin tmax sqrt hlen]
     have key : ∀ k, dot2 (sub2 (smul2 2 (smul2 k t)) s) (sub2 (smul2 2 (smul2 k t)) s) = dot2 s s + 4 * k * (k * dot2 t t - dot2 t s) := by
       intro k; simp only [dot2, sub2, smul2]; ring
     rw [key]
     by_cases ht : dot2 t t = 0
     · rw [ht]; simp only [div_zero, zero_mul, mul_zero, sub_zero, add_zero]
     · field_simp; ring
-  · rw [h1, h1, VecAlgo2_project tmin sqrt hlen, VecAlgo2_project tmin sqrt hlen]
+  · rw [h1, h1, VecAlgo2_project tmin tmax sqrt hlen, VecAlgo2_project tmin tmax sqrt hlen]
     have key : ∀ k v, dot2 t (sub2 (smul2 2 (smul2 k t)) v) = 2 * k * dot2 t t - dot2 t v := by
       intro k v; simp only [dot2, sub2, smul2]; ring
     rw [key]
@@ -905,8 +905,8 @@ theorem VecAlgo2_closestVertex (v0 v1 v2 p : V2 α) :
   · exact ⟨Or.inl rfl, le_refl _, by linarith, by linarith⟩
 
 
-theorem VecAlgo4_project (tmin : α) (sqrt : α → α) (hlen : LenSpec4 (Gen.V4.length tmin sqrt)) (s t : V4 α) :
-    Gen.VecAlgo4.project tmin sqrt s t = smul4 (dot4 s t / dot4 s s) s := by
+theorem VecAlgo4_project (tmin tmax : α) (sqrt : α → α) (hlen : LenSpec4 (Gen.V4.length tmin tmax sqrt)) (s t : V4 α) :
+    Gen.VecAlgo4.project tmin tmax sqrt s t = smul4 (dot4 s t / dot4 s s) s := by
   simp only [Gen.VecAlgo4.project]
   len_intro hlen L hsq hnn
   split_ifs with h0
@@ -916,15 +916,15 @@ theorem VecAlgo4_project (tmin : α) (sqrt : α → α) (hlen : LenSpec4 (Gen.V4
     simp only [smul4, dot4, h1, h2, h3, h4, V4.mk.injEq]; refine ⟨?_, ?_, ?_, ?_⟩ <;> ring
   · rw [← hsq]; simp only [smul4, dot4, V4.mk.injEq]; refine ⟨?_, ?_, ?_, ?_⟩ <;> ring
 
-theorem VecAlgo4_orthogonal (tmin : α) (sqrt : α → α) (hlen : LenSpec4 (Gen.V4.length tmin sqrt)) (s t : V4 α) :
-    Gen.VecAlgo4.orthogonal tmin sqrt s t = sub4 t (Gen.VecAlgo4.project tmin sqrt s t) ∧
-    dot4 (Gen.VecAlgo4.orthogonal tmin sqrt s t) s = 0 ∧
-    add4 (Gen.VecAlgo4.project tmin sqrt s t) (Gen.VecAlgo4.orthogonal tmin sqrt s t) = t := by
-  have h1 : Gen.VecAlgo4.orthogonal tmin sqrt s t = sub4 t (Gen.VecAlgo4.project tmin sqrt s t) := by
+theorem VecAlgo4_orthogonal (tmin tmax : α) (sqrt : α → α) (hlen : LenSpec4 (Gen.V4.length tmin tmax sqrt)) (s t : V4 α) :
+    Gen.VecAlgo4.orthogonal tmin tmax sqrt s t = sub4 t (Gen.VecAlgo4.project tmin tmax sqrt s t) ∧
+    dot4 (Gen.VecAlgo4.orthogonal tmin tmax sqrt s t) s = 0 ∧
+    add4 (Gen.VecAlgo4.project tmin tmax sqrt s t) (Gen.VecAlgo4.orthogonal tmin tmax sqrt s t) = t := by
+  have h1 : Gen.VecAlgo4.orthogonal tmin tmax sqrt s t = sub4 t (Gen.VecAlgo4.project tmin tmax sqrt s t) := by
     simp only [Gen.VecAlgo4.orthogonal, Gen.VecAlgo4.project]
     split_ifs <;> rfl
   refine ⟨h1, ?_, ?_⟩
-  · rw [h1, VecAlgo4_project tmin sqrt hlen]
+  · rw [h1, VecAlgo4_project tmin tmax sqrt hlen]
     have key : ∀ k, dot4 (sub4 t (smul4 k s)) s = dot4 s t - k * dot4 s s := by
       intro k; simp only [dot4, sub4, smul4]; ring
     rw [key]
@@ -935,23 +935,23 @@ theorem VecAlgo4_orthogonal (tmin : α) (sqrt : α → α) (hlen : LenSpec4 (Gen
     · field_simp; ring
   · rw [h1]; cases t; simp only [add4, sub4, V4.mk.injEq]; refine ⟨?_, ?_, ?_, ?_⟩ <;> ring
 
-theorem VecAlgo4_reflect (tmin : α) (sqrt : α → α) (hlen : LenSpec4 (Gen.V4.length tmin sqrt)) (s t : V4 α) :
-    Gen.VecAlgo4.reflect tmin sqrt s t = sub4 (smul4 2 (Gen.VecAlgo4.project tmin sqrt t s)) s ∧
-    dot4 (Gen.VecAlgo4.reflect tmin sqrt s t) (Gen.VecAlgo4.reflect tmin sqrt s t) = dot4 s s ∧
-    Gen.VecAlgo4.reflect tmin sqrt (Gen.VecAlgo4.reflect tmin sqrt s t) t = s := by
-  have h1 : ∀ s, Gen.VecAlgo4.reflect tmin sqrt s t = sub4 (smul4 2 (Gen.VecAlgo4.project tmin sqrt t s)) s := by
+theorem VecAlgo4_reflect (tmin tmax : α) (sqrt : α → α) (hlen : LenSpec4 (Gen.V4.length tmin tmax sqrt)) (s t : V4 α) :
+    Gen.VecAlgo4.reflect tmin tmax sqrt s t = sub4 (smul4 2 (Gen.VecAlgo4.project tmin tmax sqrt t s)) s ∧
+    dot4 (Gen.VecAlgo4.reflect tmin tmax sqrt s t) (Gen.VecAlgo4.reflect tmin tmax sqrt s t) = dot4 s s ∧
+    Gen.VecAlgo4.reflect tmin tmax sqrt (Gen.VecAlgo4.reflect tmin tmax sqrt s t) t = s := by
+  have h1 : ∀ s, Gen.VecAlgo4.reflect tmin tmax sqrt s t = sub4 (smul4 2 (Gen.VecAlgo4.project tmin tmax sqrt t s)) s := by
     intro s
     simp only [Gen.VecAlgo4.reflect, Gen.VecAlgo4.project]
     split_ifs <;> (simp only [sub4, smul4, V4.mk.injEq]; refine ⟨?_, ?_, ?_, ?_⟩ <;> ring)
   refine ⟨h1 s, ?_, ?_⟩
-  · rw [h1, VecAlgo4_project tmin sqrt hlen]
+  · rw [h1, VecAlgo4_project tmin tmax sqrt hlen]
     have key : ∀ k, dot4 (sub4 (smul4 2 (smul4 k t)) s) (sub4 (smul4 2 (smul4 k t)) s) = dot4 s s + 4 * k * (k * dot4 t t - dot4 t s) := by
       intro k; simp only [dot4, sub4, smul4]; ring
     rw [key]
     by_cases ht : dot4 t t = 0
     · rw [ht]; simp only [div_zero, zero_mul, mul_zero, sub_zero, add_zero]
     · field_simp; ring
-  · rw [h1, h1, VecAlgo4_project tmin sqrt hlen, VecAlgo4_project tmin sqrt hlen]
+  · rw [h1, h1, VecAlgo4_project tmin tmax sqrt hlen, VecAlgo4_project tmin tmax sqrt hlen]
     have key : ∀ k v, dot4 t (sub4 (smul4 2 (smul4 k t)) v) = 2 * k * dot4 t t - dot4 t v := by
       intro k v; simp only [dot4, sub4, smul4]; ring
     rw [key]
@@ -1001,9 +1001,9 @@ theorem LineAlgo_closestVertex (v0 v1 v2 : V3 α) (l : Line3 α) :
 /-- `rotatePoint(p, l, angle)` for a unit direction: with `q` the foot of the perpendicular from `p` and `x = p − q`,
 the result is `q + cos(angle)·x + sin(angle)·(x × dir)` (Rodrigues' formula for the rotation about the line; `x × dir`
 is `x` turned by a quarter turn in the plane perpendicular to the line).  A point on the line is fixed. -/
-theorem LineAlgo_rotatePoint (tmin : α) (sqrt sin cos : α → α) (hlen : LenSpec (Gen.V3.length tmin sqrt))
+theorem LineAlgo_rotatePoint (tmin tmax : α) (sqrt sin cos : α → α) (hlen : LenSpec (Gen.V3.length tmin tmax sqrt))
     (p : V3 α) (l : Line3 α) (angle : α) (hu : dot l.dir l.dir = 1) :
-    Gen.LineAlgo.rotatePoint tmin sqrt sin cos p l angle =
+    Gen.LineAlgo.rotatePoint tmin tmax sqrt sin cos p l angle =
       add (add (Gen.Line3.closestPointToPoint l p) (smul (cos angle) (sub p (Gen.Line3.closestPointToPoint l p))))
         (smul (sin angle) (cross (sub p (Gen.Line3.closestPointToPoint l p)) l.dir)) := by
   simp only [Gen.LineAlgo.rotatePoint, Gen.Line3.closestPointToPoint]
@@ -1040,14 +1040,14 @@ theorem LineAlgo_rotatePoint (tmin : α) (sqrt sin cos : α → α) (hlen : LenS
 
 /-- consequently (with `sin² + cos² = 1`) the image stays on the circle through `p` around the line: same distance
 from the foot `q`, still in the plane through `q` perpendicular to the line, at angle `angle` from `p − q` -/
-theorem LineAlgo_rotatePoint_circle (tmin : α) (sqrt sin cos : α → α) (hlen : LenSpec (Gen.V3.length tmin sqrt))
+theorem LineAlgo_rotatePoint_circle (tmin tmax : α) (sqrt sin cos : α → α) (hlen : LenSpec (Gen.V3.length tmin tmax sqrt))
     (p : V3 α) (l : Line3 α) (angle : α) (hu : dot l.dir l.dir = 1) (hsc : sin angle ^ 2 + cos angle ^ 2 = 1) :
-    dist2 (Gen.LineAlgo.rotatePoint tmin sqrt sin cos p l angle) (Gen.Line3.closestPointToPoint l p)
+    dist2 (Gen.LineAlgo.rotatePoint tmin tmax sqrt sin cos p l angle) (Gen.Line3.closestPointToPoint l p)
       = dist2 p (Gen.Line3.closestPointToPoint l p) ∧
-    dot (sub (Gen.LineAlgo.rotatePoint tmin sqrt sin cos p l angle) (Gen.Line3.closestPointToPoint l p)) l.dir = 0 ∧
-    dot (sub (Gen.LineAlgo.rotatePoint tmin sqrt sin cos p l angle) (Gen.Line3.closestPointToPoint l p))
+    dot (sub (Gen.LineAlgo.rotatePoint tmin tmax sqrt sin cos p l angle) (Gen.Line3.closestPointToPoint l p)) l.dir = 0 ∧
+    dot (sub (Gen.LineAlgo.rotatePoint tmin tmax sqrt sin cos p l angle) (Gen.Line3.closestPointToPoint l p))
         (sub p (Gen.Line3.closestPointToPoint l p)) = cos angle * dist2 p (Gen.Line3.closestPointToPoint l p) := by
-  rw [LineAlgo_rotatePoint tmin sqrt sin cos hlen p l angle hu]
+  rw [LineAlgo_rotatePoint tmin tmax sqrt sin cos hlen p l angle hu]
   have hperp := Line3_closestPointToPoint_perp l p hu
   generalize Gen.Line3.closestPointToPoint l p = q at *
   generalize sin angle = s at *
@@ -1092,22 +1092,22 @@ macro "tri_forbid " h:ident " : " c:term : tactic => `(tactic| (
     clear h'))
 
 set_option maxHeartbeats 4000000 in
-theorem tri_spec (tmin tmax : α) (sqrt : α → α) (hlen : LenSpec (Gen.V3.length tmin sqrt)) (l : Line3 α) (v0 v1 v2 : V3 α) :
+theorem tri_spec (tmin tmax : α) (sqrt : α → α) (hlen : LenSpec (Gen.V3.length tmin tmax sqrt)) (l : Line3 α) (v0 v1 v2 : V3 α) :
     ((Gen.LineAlgo.intersect tmin tmax sqrt l v0 v1 v2).1 = true ↔
-      Gen.V3.length tmin sqrt (triN v0 v1 v2) ≠ 0 ∧
-      (1 < sabs (triNd (Gen.V3.length tmin sqrt) l v0 v1 v2) ∨
-        sabs (triD (Gen.V3.length tmin sqrt) l v0 v1 v2) < tmax * sabs (triNd (Gen.V3.length tmin sqrt) l v0 v1 v2)) ∧
-      0 ≤ triE (Gen.V3.length tmin sqrt) (triPt (Gen.V3.length tmin sqrt) l v0 v1 v2) v0 v1 v2 ∧
-      triE (Gen.V3.length tmin sqrt) (triPt (Gen.V3.length tmin sqrt) l v0 v1 v2) v0 v1 v2 ≤ triF (Gen.V3.length tmin sqrt) v0 v1 v2 ∧
-      0 ≤ triE (Gen.V3.length tmin sqrt) (triPt (Gen.V3.length tmin sqrt) l v0 v1 v2) v1 v2 v0 ∧
-      triE (Gen.V3.length tmin sqrt) (triPt (Gen.V3.length tmin sqrt) l v0 v1 v2) v1 v2 v0 ≤ triF (Gen.V3.length tmin sqrt) v1 v2 v0 ∧
-      ¬ triBy (Gen.V3.length tmin sqrt) l v0 v1 v2 < 0) ∧
+      Gen.V3.length tmin tmax sqrt (triN v0 v1 v2) ≠ 0 ∧
+      (1 < sabs (triNd (Gen.V3.length tmin tmax sqrt) l v0 v1 v2) ∨
+        sabs (triD (Gen.V3.length tmin tmax sqrt) l v0 v1 v2) < tmax * sabs (triNd (Gen.V3.length tmin tmax sqrt) l v0 v1 v2)) ∧
+      0 ≤ triE (Gen.V3.length tmin tmax sqrt) (triPt (Gen.V3.length tmin tmax sqrt) l v0 v1 v2) v0 v1 v2 ∧
+      triE (Gen.V3.length tmin tmax sqrt) (triPt (Gen.V3.length tmin tmax sqrt) l v0 v1 v2) v0 v1 v2 ≤ triF (Gen.V3.length tmin tmax sqrt) v0 v1 v2 ∧
+      0 ≤ triE (Gen.V3.length tmin tmax sqrt) (triPt (Gen.V3.length tmin tmax sqrt) l v0 v1 v2) v1 v2 v0 ∧
+      triE (Gen.V3.length tmin tmax sqrt) (triPt (Gen.V3.length tmin tmax sqrt) l v0 v1 v2) v1 v2 v0 ≤ triF (Gen.V3.length tmin tmax sqrt) v1 v2 v0 ∧
+      ¬ triBy (Gen.V3.length tmin tmax sqrt) l v0 v1 v2 < 0) ∧
     ((Gen.LineAlgo.intersect tmin tmax sqrt l v0 v1 v2).1 = true →
-      (Gen.LineAlgo.intersect tmin tmax sqrt l v0 v1 v2).2.1 = triPt (Gen.V3.length tmin sqrt) l v0 v1 v2 ∧
+      (Gen.LineAlgo.intersect tmin tmax sqrt l v0 v1 v2).2.1 = triPt (Gen.V3.length tmin tmax sqrt) l v0 v1 v2 ∧
       (Gen.LineAlgo.intersect tmin tmax sqrt l v0 v1 v2).2.2.1 =
-        ⟨triBx (Gen.V3.length tmin sqrt) l v0 v1 v2, triBy (Gen.V3.length tmin sqrt) l v0 v1 v2, triBz (Gen.V3.length tmin sqrt) l v0 v1 v2⟩ ∧
-      ((Gen.LineAlgo.intersect tmin tmax sqrt l v0 v1 v2).2.2.2 = true ↔ dot l.dir (triNh (Gen.V3.length tmin sqrt) v0 v1 v2) < 0)) := by
-  by_cases hL0 : Gen.V3.length tmin sqrt (triN v0 v1 v2) = 0
+        ⟨triBx (Gen.V3.length tmin tmax sqrt) l v0 v1 v2, triBy (Gen.V3.length tmin tmax sqrt) l v0 v1 v2, triBz (Gen.V3.length tmin tmax sqrt) l v0 v1 v2⟩ ∧
+      ((Gen.LineAlgo.intersect tmin tmax sqrt l v0 v1 v2).2.2.2 = true ↔ dot l.dir (triNh (Gen.V3.length tmin tmax sqrt) v0 v1 v2) < 0)) := by
+  by_cases hL0 : Gen.V3.length tmin tmax sqrt (triN v0 v1 v2) = 0
   · have h : (Gen.LineAlgo.intersect tmin tmax sqrt l v0 v1 v2).1 = false := by
       have hL0' := hL0
       simp only [triN, cross, sub] at hL0'
@@ -1120,14 +1120,14 @@ theorem tri_spec (tmin tmax : α) (sqrt : α → α) (hlen : LenSpec (Gen.V3.len
       rw [h0] at this ⊢
       simp only [dot, zero, mul_zero, add_zero] at this
       exact pow_eq_zero_iff (two_ne_zero) |>.mp this)
-    have hL1 : Gen.V3.length tmin sqrt (sub v1 v0) ≠ 0 := by
+    have hL1 : Gen.V3.length tmin tmax sqrt (sub v1 v0) ≠ 0 := by
       intro h0
       have hz := len_zero (hlen (sub v1 v0)).1 h0
       apply hN
       simp only [sub, zero, V3.mk.injEq] at hz
       obtain ⟨h1, h2, h3⟩ := hz
       simp only [triN, cross, sub, zero, V3.mk.injEq, h1, h2, h3, mul_zero, sub_self, and_self]
-    have hL2 : Gen.V3.length tmin sqrt (sub v2 v1) ≠ 0 := by
+    have hL2 : Gen.V3.length tmin tmax sqrt (sub v2 v1) ≠ 0 := by
       intro h0
       have hz := len_zero (hlen (sub v2 v1)).1 h0
       apply hN
@@ -1140,8 +1140,8 @@ theorem tri_spec (tmin tmax : α) (sqrt : α → α) (hlen : LenSpec (Gen.V3.len
     simp only [triN, cross, sub] at hL0' hL1' hL2'
     simp only [Gen.LineAlgo.intersect, if_neg hL0', if_neg hL1', if_neg hL2']
     -- the guard: two spellings of "not nearly parallel"
-    by_cases g1 : 1 < sabs (triNd (Gen.V3.length tmin sqrt) l v0 v1 v2)
-    on_goal 2 => by_cases g2 : sabs (triD (Gen.V3.length tmin sqrt) l v0 v1 v2) < tmax * sabs (triNd (Gen.V3.length tmin sqrt) l v0 v1 v2)
+    by_cases g1 : 1 < sabs (triNd (Gen.V3.length tmin tmax sqrt) l v0 v1 v2)
+    on_goal 2 => by_cases g2 : sabs (triD (Gen.V3.length tmin tmax sqrt) l v0 v1 v2) < tmax * sabs (triNd (Gen.V3.length tmin tmax sqrt) l v0 v1 v2)
     on_goal 3 =>
       have g1' := g1
       have g2' := g2
@@ -1160,12 +1160,12 @@ theorem tri_spec (tmin tmax : α) (sqrt : α → α) (hlen : LenSpec (Gen.V3.len
       simp only [if_neg g1', if_pos g2']
       clear g1' g2'
     all_goals
-      tri_req e0a : 0 ≤ triE (Gen.V3.length tmin sqrt) (triPt (Gen.V3.length tmin sqrt) l v0 v1 v2) v0 v1 v2
-      tri_req e0b : triE (Gen.V3.length tmin sqrt) (triPt (Gen.V3.length tmin sqrt) l v0 v1 v2) v0 v1 v2 ≤ triF (Gen.V3.length tmin sqrt) v0 v1 v2
-      tri_req e1a : 0 ≤ triE (Gen.V3.length tmin sqrt) (triPt (Gen.V3.length tmin sqrt) l v0 v1 v2) v1 v2 v0
-      tri_req e1b : triE (Gen.V3.length tmin sqrt) (triPt (Gen.V3.length tmin sqrt) l v0 v1 v2) v1 v2 v0 ≤ triF (Gen.V3.length tmin sqrt) v1 v2 v0
-      tri_forbid eby : triBy (Gen.V3.length tmin sqrt) l v0 v1 v2 < 0
-      by_cases hf : dot l.dir (triNh (Gen.V3.length tmin sqrt) v0 v1 v2) < 0
+      tri_req e0a : 0 ≤ triE (Gen.V3.length tmin tmax sqrt) (triPt (Gen.V3.length tmin tmax sqrt) l v0 v1 v2) v0 v1 v2
+      tri_req e0b : triE (Gen.V3.length tmin tmax sqrt) (triPt (Gen.V3.length tmin tmax sqrt) l v0 v1 v2) v0 v1 v2 ≤ triF (Gen.V3.length tmin tmax sqrt) v0 v1 v2
+      tri_req e1a : 0 ≤ triE (Gen.V3.length tmin tmax sqrt) (triPt (Gen.V3.length tmin tmax sqrt) l v0 v1 v2) v1 v2 v0
+      tri_req e1b : triE (Gen.V3.length tmin tmax sqrt) (triPt (Gen.V3.length tmin tmax sqrt) l v0 v1 v2) v1 v2 v0 ≤ triF (Gen.V3.length tmin tmax sqrt) v1 v2 v0
+      tri_forbid eby : triBy (Gen.V3.length tmin tmax sqrt) l v0 v1 v2 < 0
+      by_cases hf : dot l.dir (triNh (Gen.V3.length tmin tmax sqrt) v0 v1 v2) < 0
       all_goals
         have hf' := hf
         simp only [triNh, triN, divS, dot, cross, sub] at hf'
@@ -1175,14 +1175,14 @@ theorem tri_spec (tmin tmax : α) (sqrt : α → α) (hlen : LenSpec (Gen.V3.len
 
 /-- facts shared by soundness and completeness: for a non-degenerate triangle and a line not parallel to its plane
 the computed point lies in the plane, and the two computed barycentrics are the Gram-determinant quotients -/
-theorem tri_facts (tmin : α) (sqrt : α → α) (hlen : LenSpec (Gen.V3.length tmin sqrt)) (l : Line3 α) (v0 v1 v2 : V3 α)
-    (hL0 : Gen.V3.length tmin sqrt (triN v0 v1 v2) ≠ 0) (hnd : triNd (Gen.V3.length tmin sqrt) l v0 v1 v2 ≠ 0) :
+theorem tri_facts (tmin tmax : α) (sqrt : α → α) (hlen : LenSpec (Gen.V3.length tmin tmax sqrt)) (l : Line3 α) (v0 v1 v2 : V3 α)
+    (hL0 : Gen.V3.length tmin tmax sqrt (triN v0 v1 v2) ≠ 0) (hnd : triNd (Gen.V3.length tmin tmax sqrt) l v0 v1 v2 ≠ 0) :
     0 < dot (triN v0 v1 v2) (triN v0 v1 v2) ∧
-    dot (triN v0 v1 v2) (sub (triPt (Gen.V3.length tmin sqrt) l v0 v1 v2) v0) = 0 ∧
-    (∀ p, triE (Gen.V3.length tmin sqrt) p v0 v1 v2 = numA p v0 v1 v2 / dot (sub v1 v0) (sub v1 v0)) ∧
-    (∀ p, triE (Gen.V3.length tmin sqrt) p v1 v2 v0 = numA p v1 v2 v0 / dot (sub v2 v1) (sub v2 v1)) ∧
-    triF (Gen.V3.length tmin sqrt) v0 v1 v2 = dot (triN v0 v1 v2) (triN v0 v1 v2) / dot (sub v1 v0) (sub v1 v0) ∧
-    triF (Gen.V3.length tmin sqrt) v1 v2 v0 = dot (triN v0 v1 v2) (triN v0 v1 v2) / dot (sub v2 v1) (sub v2 v1) ∧
+    dot (triN v0 v1 v2) (sub (triPt (Gen.V3.length tmin tmax sqrt) l v0 v1 v2) v0) = 0 ∧
+    (∀ p, triE (Gen.V3.length tmin tmax sqrt) p v0 v1 v2 = numA p v0 v1 v2 / dot (sub v1 v0) (sub v1 v0)) ∧
+    (∀ p, triE (Gen.V3.length tmin tmax sqrt) p v1 v2 v0 = numA p v1 v2 v0 / dot (sub v2 v1) (sub v2 v1)) ∧
+    triF (Gen.V3.length tmin tmax sqrt) v0 v1 v2 = dot (triN v0 v1 v2) (triN v0 v1 v2) / dot (sub v1 v0) (sub v1 v0) ∧
+    triF (Gen.V3.length tmin tmax sqrt) v1 v2 v0 = dot (triN v0 v1 v2) (triN v0 v1 v2) / dot (sub v2 v1) (sub v2 v1) ∧
     0 < dot (sub v1 v0) (sub v1 v0) ∧ 0 < dot (sub v2 v1) (sub v2 v1) := by
   obtain ⟨hsq0, hnn0⟩ := hlen (triN v0 v1 v2)
   have hN : triN v0 v1 v2 ≠ zero := fun h0 => hL0 (by
@@ -1209,7 +1209,7 @@ theorem tri_facts (tmin : α) (sqrt : α → α) (hlen : LenSpec (Gen.V3.length 
   · -- the hit point is in the triangle's plane
     have hnd' := hnd
     simp only [triPt, triD, triNd, triNh, divS, lineAt] at hnd' ⊢
-    generalize Gen.V3.length tmin sqrt (triN v0 v1 v2) = L0 at *
+    generalize Gen.V3.length tmin tmax sqrt (triN v0 v1 v2) = L0 at *
     generalize triN v0 v1 v2 = N at *
     simp only [dot, sub] at hnd' ⊢
     have hnd'' : N.x * l.dir.x + N.y * l.dir.y + N.z * l.dir.z ≠ 0 := by
@@ -1227,7 +1227,7 @@ theorem tri_facts (tmin : α) (sqrt : α → α) (hlen : LenSpec (Gen.V3.length 
 triangle — the returned barycentric coordinates are non-negative, sum to one and reproduce the point
 (`pt = b.x·v0 + b.y·v1 + b.z·v2`, as documented) — and `front` is `true` exactly when the line's direction has a negative
 dot product with the normal `(v2−v1)×(v1−v0)` (as documented). -/
-theorem LineAlgo_intersect_sound (tmin tmax : α) (sqrt : α → α) (hlen : LenSpec (Gen.V3.length tmin sqrt))
+theorem LineAlgo_intersect_sound (tmin tmax : α) (sqrt : α → α) (hlen : LenSpec (Gen.V3.length tmin tmax sqrt))
     (l : Line3 α) (v0 v1 v2 : V3 α) (ht : (Gen.LineAlgo.intersect tmin tmax sqrt l v0 v1 v2).1 = true) :
     OnLine l (Gen.LineAlgo.intersect tmin tmax sqrt l v0 v1 v2).2.1 ∧
     0 ≤ (Gen.LineAlgo.intersect tmin tmax sqrt l v0 v1 v2).2.2.1.x ∧ 0 ≤ (Gen.LineAlgo.intersect tmin tmax sqrt l v0 v1 v2).2.2.1.y ∧
@@ -1241,41 +1241,41 @@ theorem LineAlgo_intersect_sound (tmin tmax : α) (sqrt : α → α) (hlen : Len
   obtain ⟨hiff, hout⟩ := tri_spec tmin tmax sqrt hlen l v0 v1 v2
   obtain ⟨hL0, hg, e0a, e0b, e1a, e1b, hby⟩ := hiff.mp ht
   obtain ⟨hpt, hb, hfront⟩ := hout ht
-  have hnd : triNd (Gen.V3.length tmin sqrt) l v0 v1 v2 ≠ 0 := by
+  have hnd : triNd (Gen.V3.length tmin tmax sqrt) l v0 v1 v2 ≠ 0 := by
     intro h0
     rw [h0] at hg
     simp only [sabs_eq_abs, abs_zero, mul_zero] at hg
     rcases hg with hg | hg
     · linarith
     · exact absurd hg (not_lt.mpr (abs_nonneg _))
-  obtain ⟨hNpos, hplane, hE0, hE1, hF0, hF1, hQ0, hQ1⟩ := tri_facts tmin sqrt hlen l v0 v1 v2 hL0 hnd
+  obtain ⟨hNpos, hplane, hE0, hE1, hF0, hF1, hQ0, hQ1⟩ := tri_facts tmin tmax sqrt hlen l v0 v1 v2 hL0 hnd
   rw [hE0] at e0a
   rw [hE1] at e1a
   -- the two computed coordinates as Gram quotients over |N|²
-  have hbz : triBz (Gen.V3.length tmin sqrt) l v0 v1 v2
-      = numA (triPt (Gen.V3.length tmin sqrt) l v0 v1 v2) v0 v1 v2 / dot (triN v0 v1 v2) (triN v0 v1 v2) := by
+  have hbz : triBz (Gen.V3.length tmin tmax sqrt) l v0 v1 v2
+      = numA (triPt (Gen.V3.length tmin tmax sqrt) l v0 v1 v2) v0 v1 v2 / dot (triN v0 v1 v2) (triN v0 v1 v2) := by
     unfold triBz; rw [hE0, hF0]; field_simp
-  have hbx : triBx (Gen.V3.length tmin sqrt) l v0 v1 v2
-      = numA (triPt (Gen.V3.length tmin sqrt) l v0 v1 v2) v1 v2 v0 / dot (triN v0 v1 v2) (triN v0 v1 v2) := by
+  have hbx : triBx (Gen.V3.length tmin tmax sqrt) l v0 v1 v2
+      = numA (triPt (Gen.V3.length tmin tmax sqrt) l v0 v1 v2) v1 v2 v0 / dot (triN v0 v1 v2) (triN v0 v1 v2) := by
     unfold triBx; rw [hE1, hF1]; field_simp
-  have hbz0 : 0 ≤ triBz (Gen.V3.length tmin sqrt) l v0 v1 v2 := by
+  have hbz0 : 0 ≤ triBz (Gen.V3.length tmin tmax sqrt) l v0 v1 v2 := by
     rw [hbz]; apply div_nonneg _ (le_of_lt hNpos)
     have := (div_nonneg_iff.mp e0a); rcases this with ⟨h, _⟩ | ⟨_, h⟩
     · exact h
     · linarith
-  have hbx0 : 0 ≤ triBx (Gen.V3.length tmin sqrt) l v0 v1 v2 := by
+  have hbx0 : 0 ≤ triBx (Gen.V3.length tmin tmax sqrt) l v0 v1 v2 := by
     rw [hbx]; apply div_nonneg _ (le_of_lt hNpos)
     have := (div_nonneg_iff.mp e1a); rcases this with ⟨h, _⟩ | ⟨_, h⟩
     · exact h
     · linarith
-  have hbary : triPt (Gen.V3.length tmin sqrt) l v0 v1 v2
-      = baryPoint ⟨triBx (Gen.V3.length tmin sqrt) l v0 v1 v2, triBy (Gen.V3.length tmin sqrt) l v0 v1 v2,
-          triBz (Gen.V3.length tmin sqrt) l v0 v1 v2⟩ v0 v1 v2 := by
-    have hid := bary_identity (triPt (Gen.V3.length tmin sqrt) l v0 v1 v2) v0 v1 v2
+  have hbary : triPt (Gen.V3.length tmin tmax sqrt) l v0 v1 v2
+      = baryPoint ⟨triBx (Gen.V3.length tmin tmax sqrt) l v0 v1 v2, triBy (Gen.V3.length tmin tmax sqrt) l v0 v1 v2,
+          triBz (Gen.V3.length tmin tmax sqrt) l v0 v1 v2⟩ v0 v1 v2 := by
+    have hid := bary_identity (triPt (Gen.V3.length tmin tmax sqrt) l v0 v1 v2) v0 v1 v2
     rw [hplane] at hid
     unfold triBy
     rw [hbx, hbz]
-    generalize triPt (Gen.V3.length tmin sqrt) l v0 v1 v2 = p at *
+    generalize triPt (Gen.V3.length tmin tmax sqrt) l v0 v1 v2 = p at *
     generalize numA p v1 v2 v0 = A' at *
     generalize numA p v0 v1 v2 = A at *
     generalize dot (triN v0 v1 v2) (triN v0 v1 v2) = Q at *
@@ -1289,8 +1289,8 @@ theorem LineAlgo_intersect_sound (tmin tmax : α) (sqrt : α → α) (hlen : Len
   · exact ⟨_, hbx0, not_lt.mp hby, hbz0, by unfold triBy; ring, hbary⟩
   · rw [hfront]
     obtain ⟨hsq0, hnn0⟩ := hlen (triN v0 v1 v2)
-    have hLpos : 0 < Gen.V3.length tmin sqrt (triN v0 v1 v2) := lt_of_le_of_ne hnn0 (Ne.symm hL0)
-    have : dot l.dir (triNh (Gen.V3.length tmin sqrt) v0 v1 v2) = dot l.dir (triN v0 v1 v2) / Gen.V3.length tmin sqrt (triN v0 v1 v2) := by
+    have hLpos : 0 < Gen.V3.length tmin tmax sqrt (triN v0 v1 v2) := lt_of_le_of_ne hnn0 (Ne.symm hL0)
+    have : dot l.dir (triNh (Gen.V3.length tmin tmax sqrt) v0 v1 v2) = dot l.dir (triN v0 v1 v2) / Gen.V3.length tmin tmax sqrt (triN v0 v1 v2) := by
       simp only [triNh, divS, dot]; ring
     rw [this, div_neg_iff]
     constructor
@@ -1309,41 +1309,41 @@ theorem numA_of_bary (b v0 v1 v2 : V3 α) (hs : b.x + b.y + b.z = 1) :
 /-- COMPLETENESS of triangle `intersect`: for a non-degenerate triangle and a line that is not parallel to its plane,
 if the line meets the closed triangle at a parameter `t` with `|t| < tmax` (the documented "nearly parallel" overflow
 guard does not fire), the result is `true`.  Together with soundness: `true` ↔ the line meets the plane inside the triangle. -/
-theorem LineAlgo_intersect_complete (tmin tmax : α) (sqrt : α → α) (hlen : LenSpec (Gen.V3.length tmin sqrt))
+theorem LineAlgo_intersect_complete (tmin tmax : α) (sqrt : α → α) (hlen : LenSpec (Gen.V3.length tmin tmax sqrt))
     (l : Line3 α) (v0 v1 v2 : V3 α) (t : α) (hN : triN v0 v1 v2 ≠ zero) (hnp : dot l.dir (triN v0 v1 v2) ≠ 0)
     (hin : InTriangle v0 v1 v2 (lineAt l t)) (ht : |t| < tmax) :
     (Gen.LineAlgo.intersect tmin tmax sqrt l v0 v1 v2).1 = true := by
   obtain ⟨hiff, _⟩ := tri_spec tmin tmax sqrt hlen l v0 v1 v2
   obtain ⟨b, hb0, hb1, hb2, hbs, hpb⟩ := hin
   obtain ⟨hsq0, hnn0⟩ := hlen (triN v0 v1 v2)
-  have hL0 : Gen.V3.length tmin sqrt (triN v0 v1 v2) ≠ 0 := len_ne_zero hsq0 hN
-  have hLpos : 0 < Gen.V3.length tmin sqrt (triN v0 v1 v2) := lt_of_le_of_ne hnn0 (Ne.symm hL0)
-  have hndv : triNd (Gen.V3.length tmin sqrt) l v0 v1 v2 = dot l.dir (triN v0 v1 v2) / Gen.V3.length tmin sqrt (triN v0 v1 v2) := by
+  have hL0 : Gen.V3.length tmin tmax sqrt (triN v0 v1 v2) ≠ 0 := len_ne_zero hsq0 hN
+  have hLpos : 0 < Gen.V3.length tmin tmax sqrt (triN v0 v1 v2) := lt_of_le_of_ne hnn0 (Ne.symm hL0)
+  have hndv : triNd (Gen.V3.length tmin tmax sqrt) l v0 v1 v2 = dot l.dir (triN v0 v1 v2) / Gen.V3.length tmin tmax sqrt (triN v0 v1 v2) := by
     simp only [triNd, triNh, divS, dot]; ring
-  have hnd : triNd (Gen.V3.length tmin sqrt) l v0 v1 v2 ≠ 0 := by
+  have hnd : triNd (Gen.V3.length tmin tmax sqrt) l v0 v1 v2 ≠ 0 := by
     rw [hndv]; exact div_ne_zero hnp hL0
   -- the given point is in the plane, hence its parameter is the computed one
   have hplane : dot (triN v0 v1 v2) (sub (lineAt l t) v0) = 0 := by
     rw [hpb]
     have hy : b.y = 1 - b.x - b.z := by linarith
     simp only [baryPoint, triN, dot, cross, sub, add, smul, hy]; ring
-  have htd : triD (Gen.V3.length tmin sqrt) l v0 v1 v2 = t * triNd (Gen.V3.length tmin sqrt) l v0 v1 v2 := by
+  have htd : triD (Gen.V3.length tmin tmax sqrt) l v0 v1 v2 = t * triNd (Gen.V3.length tmin tmax sqrt) l v0 v1 v2 := by
     rw [hndv]
-    have : triD (Gen.V3.length tmin sqrt) l v0 v1 v2 = dot (triN v0 v1 v2) (sub v0 l.pos) / Gen.V3.length tmin sqrt (triN v0 v1 v2) := by
+    have : triD (Gen.V3.length tmin tmax sqrt) l v0 v1 v2 = dot (triN v0 v1 v2) (sub v0 l.pos) / Gen.V3.length tmin tmax sqrt (triN v0 v1 v2) := by
       simp only [triD, triNh, divS, dot]; ring
     rw [this]
     field_simp
     simp only [dot, sub, lineAt] at hplane ⊢
     linear_combination -hplane
-  have htq : triD (Gen.V3.length tmin sqrt) l v0 v1 v2 / triNd (Gen.V3.length tmin sqrt) l v0 v1 v2 = t := by
+  have htq : triD (Gen.V3.length tmin tmax sqrt) l v0 v1 v2 / triNd (Gen.V3.length tmin tmax sqrt) l v0 v1 v2 = t := by
     rw [htd]; field_simp
-  have hpt : triPt (Gen.V3.length tmin sqrt) l v0 v1 v2 = baryPoint b v0 v1 v2 := by
+  have hpt : triPt (Gen.V3.length tmin tmax sqrt) l v0 v1 v2 = baryPoint b v0 v1 v2 := by
     unfold triPt; rw [htq, hpb]
-  obtain ⟨hNpos, _, hE0, hE1, hF0, hF1, hQ0, hQ1⟩ := tri_facts tmin sqrt hlen l v0 v1 v2 hL0 hnd
+  obtain ⟨hNpos, _, hE0, hE1, hF0, hF1, hQ0, hQ1⟩ := tri_facts tmin tmax sqrt hlen l v0 v1 v2 hL0 hnd
   obtain ⟨hA, hA'⟩ := numA_of_bary b v0 v1 v2 hbs
-  have hbz : triBz (Gen.V3.length tmin sqrt) l v0 v1 v2 = b.z := by
+  have hbz : triBz (Gen.V3.length tmin tmax sqrt) l v0 v1 v2 = b.z := by
     unfold triBz; rw [hE0, hF0, hpt, hA]; field_simp
-  have hbx : triBx (Gen.V3.length tmin sqrt) l v0 v1 v2 = b.x := by
+  have hbx : triBx (Gen.V3.length tmin tmax sqrt) l v0 v1 v2 = b.x := by
     unfold triBx; rw [hE1, hF1, hpt, hA']; field_simp
   apply hiff.mpr
   refine ⟨hL0, Or.inr ?_, ?_, ?_, ?_, ?_, ?_⟩
@@ -1361,7 +1361,7 @@ theorem LineAlgo_intersect_complete (tmin tmax : α) (sqrt : α → α) (hlen : 
 
 
 /-- a zero-area triangle, or a line parallel to the triangle's plane, is reported `false` (nothing is divided by zero) -/
-theorem LineAlgo_intersect_degenerate (tmin tmax : α) (sqrt : α → α) (hlen : LenSpec (Gen.V3.length tmin sqrt))
+theorem LineAlgo_intersect_degenerate (tmin tmax : α) (sqrt : α → α) (hlen : LenSpec (Gen.V3.length tmin tmax sqrt))
     (l : Line3 α) (v0 v1 v2 : V3 α) (h : triN v0 v1 v2 = zero ∨ dot l.dir (triN v0 v1 v2) = 0) :
     (Gen.LineAlgo.intersect tmin tmax sqrt l v0 v1 v2).1 = false := by
   obtain ⟨hiff, _⟩ := tri_spec tmin tmax sqrt hlen l v0 v1 v2
@@ -1371,8 +1371,8 @@ theorem LineAlgo_intersect_degenerate (tmin tmax : α) (sqrt : α → α) (hlen 
     | true => rfl
     | false => exact absurd hb hne
   obtain ⟨hL0, hg, _⟩ := hiff.mp ht
-  have hnd0 : triNd (Gen.V3.length tmin sqrt) l v0 v1 v2 = 0 := by
-    have hndv : triNd (Gen.V3.length tmin sqrt) l v0 v1 v2 = dot l.dir (triN v0 v1 v2) / Gen.V3.length tmin sqrt (triN v0 v1 v2) := by
+  have hnd0 : triNd (Gen.V3.length tmin tmax sqrt) l v0 v1 v2 = 0 := by
+    have hndv : triNd (Gen.V3.length tmin tmax sqrt) l v0 v1 v2 = dot l.dir (triN v0 v1 v2) / Gen.V3.length tmin tmax sqrt (triN v0 v1 v2) := by
       simp only [triNd, triNh, divS, dot]; ring
     rcases h with h | h
     · rw [hndv, h]; simp only [dot, zero, mul_zero, add_zero, zero_div]
@@ -1386,19 +1386,19 @@ theorem LineAlgo_intersect_degenerate (tmin tmax : α) (sqrt : α → α) (hlen 
 /-! ## the length hypothesis is satisfiable: it FOLLOWS from `SqrtSpec sqrt` for the real `Vec::length()` bodies -/
 
 /-- `Vec3::length()` (all 65 paths incl. `lengthTiny`) satisfies `LenSpec` for every `tmin` once `sqrt` is a square root -/
-theorem V3_length_LenSpec (tmin : α) (sqrt : α → α) (hs : SqrtSpec sqrt) : LenSpec (Gen.V3.length tmin sqrt) :=
-  V3_length_spec tmin sqrt hs
-theorem V2_length_LenSpec (tmin : α) (sqrt : α → α) (hs : SqrtSpec sqrt) : LenSpec2 (Gen.V2.length tmin sqrt) :=
-  V2_length_spec tmin sqrt hs
-theorem V4_length_LenSpec (tmin : α) (sqrt : α → α) (hs : SqrtSpec sqrt) : LenSpec4 (Gen.V4.length tmin sqrt) :=
-  V4_length_spec tmin sqrt hs
+theorem V3_length_LenSpec (tmin tmax : α) (sqrt : α → α) (hs : SqrtSpec sqrt) : LenSpec (Gen.V3.length tmin tmax sqrt) :=
+  V3_length_spec tmin tmax sqrt hs
+theorem V2_length_LenSpec (tmin tmax : α) (sqrt : α → α) (hs : SqrtSpec sqrt) : LenSpec2 (Gen.V2.length tmin tmax sqrt) :=
+  V2_length_spec tmin tmax sqrt hs
+theorem V4_length_LenSpec (tmin tmax : α) (sqrt : α → α) (hs : SqrtSpec sqrt) : LenSpec4 (Gen.V4.length tmin tmax sqrt) :=
+  V4_length_spec tmin tmax sqrt hs
 
 /-! ## non-vacuity: concrete inputs satisfying the hypotheses of the theorems above -/
 section NonVacuity
 /-- `LenSpec` / `SqrtSpec`: the real square root, any `tmin` (used by every theorem with `hlen` / `hsqrt`) -/
-example (tmin : ℝ) : LenSpec (Gen.V3.length tmin Real.sqrt) := realLenSpec tmin
-example (tmin : ℝ) : LenSpec2 (Gen.V2.length tmin Real.sqrt) := realLenSpec2 tmin
-example (tmin : ℝ) : LenSpec4 (Gen.V4.length tmin Real.sqrt) := realLenSpec4 tmin
+example (tmin tmax : ℝ) : LenSpec (Gen.V3.length tmin tmax Real.sqrt) := realLenSpec tmin tmax
+example (tmin tmax : ℝ) : LenSpec2 (Gen.V2.length tmin tmax Real.sqrt) := realLenSpec2 tmin tmax
+example (tmin tmax : ℝ) : LenSpec4 (Gen.V4.length tmin tmax Real.sqrt) := realLenSpec4 tmin tmax
 example : SqrtSpec Real.sqrt := realSqrtSpec
 /-- `Line3_set`: two distinct points -/
 example : (⟨0, 0, 0⟩ : V3 ℝ) ≠ ⟨1, 2, 2⟩ := by intro h; simp only [V3.mk.injEq] at h; norm_num at h
